@@ -159,6 +159,12 @@ def rules : List (String × Nat) := [
 
 def dlcTable : List Nat := [0, 1, 2, 3, 4, 5, 6, 7, 8, 0, 0, 0, 9, 0, 0, 0, 10, 0, 0, 0, 11, 0, 0, 0, 12, 0, 0, 0, 0, 0, 0, 0, 13, 0, 0, 0, 0, 0, 0, 0, 0, 0, 0, 0, 0, 0, 0, 0, 14, 0, 0, 0, 0, 0, 0, 0, 0, 0, 0, 0, 0, 0, 0, 0, 15, 0, 0, 0, 0, 0, 0, 0, 0, 0, 0, 0, 0, 0, 0, 0, 0, 0, 0, 0, 0, 0, 0, 0, 0, 0, 0, 0, 0, 0, 0, 0, 0, 0, 0, 0, 0, 0, 0, 0, 0, 0, 0, 0, 0, 0, 0, 0, 0, 0, 0, 0, 0, 0, 0, 0, 0, 0, 0, 0, 0, 0, 0, 0, 0, 0, 0, 0, 0, 0, 0, 0, 0, 0, 0, 0, 0, 0, 0, 0, 0, 0, 0, 0, 0, 0, 0, 0, 0, 0, 0, 0, 0, 0, 0, 0, 0, 0, 0, 0, 0, 0, 0, 0, 0, 0, 0, 0, 0, 0, 0, 0, 0, 0, 0, 0, 0, 0, 0, 0, 0, 0, 0, 0, 0, 0, 0, 0, 0, 0, 0, 0, 0, 0, 0, 0, 0, 0, 0, 0, 0, 0, 0, 0, 0, 0, 0, 0, 0, 0, 0, 0, 0, 0, 0, 0, 0, 0, 0, 0, 0, 0, 0, 0, 0, 0, 0, 0, 0, 0, 0, 0, 0, 0, 0, 0, 0, 0, 0, 0, 0, 0, 0, 0, 0, 0, 0, 0, 0, 0, 0, 0]
 
+/-- dispatch table of `Packet::create`, translated from src/packet.cpp: (case, validating class, constructed class) -/
+def createDispatch : List (String × String × String) := [("can", "CanPayload", "CanPayload"), ("canFd", "CanFdPayload", "CanFdPayload"), ("lin", "LinPayload", "LinPayload"), ("analog", "AnalogPayload", "AnalogPayload"), ("ethernet", "EthernetPayload", "EthernetPayload"), ("cmStatMsg", "CaptureModulePayload", "CaptureModulePayload"), ("ifStatMsg", "InterfacePayload", "InterfacePayload")]
+/-- number of `case` labels in `Packet::create`; unknown types are kept generic; rejected payloads become `PayloadType::invalid` -/
+def createShape : Nat × Bool × Bool := (7, true, true)
+
+
 /-- symbols in writable sections of the library objects, minus the allow-list -/
 def mutableStatics : List String := []
 
